@@ -7,13 +7,18 @@ ID = 'C05'
 GEN = ['Hex', 'Sampler', 'Tracer']
 LEAN_TARGETS = ['OtelVerif.Props.C05']
 THEOREMS = ['Otel.C05.' + t for t in (
+    # parentage
     'resolveParent_eq_spec', 'parent_precedence', 'root_marker_forces_new_trace', 'root_marker_with_valid_span_witness',
-    'child_identity', 'root_identity', 'new_context_not_remote',
-    'sampled_flag_eq_decision', 'only_w3c1_flag_bits', 'flags_eq_spec', 'd03_asis_witness', 'tracestate_precedence',
-    'recording_iff_decision', 'dropped_span_valid_context',
-    'run_spans_ids', 'run_span_ids_fresh', 'run_root_trace_ids_fresh', 'run_contexts_valid', 'run_exported_recording',
+    # one StartSpan: identity, flags, trace state, recording
+    'started_ghosts', 'child_identity', 'root_identity', 'new_context_not_remote', 'gen_constants', 'flags_eq_spec', 'flags_w3c1',
+    'sampled_flag_eq_decision', 'only_w3c1_flag_bits', 'd03_asis_witness', 'tracestate_precedence', 'recording_iff_decision',
+    'dropped_span_valid_context',
+    # every program (induction over operation sequences)
+    'step_cases', 'run_all_spans', 'step_inv', 'run_inv', 'run_spans_ids', 'run_span_ids_fresh', 'run_root_trace_ids_fresh',
+    'run_child_identity', 'run_flags_and_tracestate', 'run_contexts_valid', 'run_exported_recording',
     'dropped_span_valid_context_not_exported', 'run_exported_nodup',
-    'threads_have_own_active_stack', 'start_uses_own_thread_only', 'gen_constants')]
+    # threads
+    'stacks_general', 'threads_have_own_active_stack', 'start_uses_own_thread_only')]
 HARNESSES = [Harness('s_c05', ['harness/s_c05.cc'], sdk_srcs=sdk_sources('common', 'resource', 'version', 'trace'),
                      includes=SDK_INCLUDES)]
 H = 's_c05'
